@@ -1,16 +1,34 @@
 (** C10: the builders are total and acceptance implies safe use. *)
-From Vib Require Import Model.Base Model.Lattice Model.Tokenizer Model.DictBuild Model.Mapper Check.TokCheck Check.C01Check Check.C06Check.
+From Vib Require Import Model.Base Model.Text Model.Lattice Model.Tokenizer Model.DictBuild Model.LexCsv Model.DefText Model.Mapper Check.TokCheck Check.C01Check Check.C06Check.
 
 Inductive c10case :=
 | C10Struct (c : tokcase)                                   (* structured dictionary, possibly malformed: model vs implementation *)
-| C10Text (id : N) (file : N) (built : N) (sents : list (N * bool))
+| C10Text (id : N) (file : N) (chardef_txt unk_txt matrix_txt lex_txt : str) (user_txt : option str)
+          (built : N) (conn : list (list Z)) (ignore_space : bool) (space_res : N) (mgl : N)
+          (obs : list sentobs) (sents : list (N * bool))     (* one text edit of one definition file: the whole build and the tokenization are compared with the text-level model *)
 | C10Bigram (id : N) (edited : N) (dual : bool) (built : N) (sents : list (N * bool))   (* the dictionary with a raw/dual connector from bigram files, valid or with one text edit *)
 | C10Map (id : N) (nl nr : N) (lmap rmap : list N) (outcome : N) (sents : list (N * bool)).   (* an arbitrary mapping sequence on an accepted dictionary *)  (* one text edit of one definition file: outcomes only *)
+
+(** the definition files at text level: every file parsed by its model, then the structured model *)
+Definition text_case (ctxt utxt mtxt ltxt : str) (usr : option str) (built : N) (isp : bool) (sres mgl : N) (obs : list sentobs)
+  : result tokcase :=
+  do ls <- parse_lex_csv ltxt ;;
+  do m <- parse_matrix_text mtxt ;;
+  do cd <- parse_chardef_text ctxt ;;
+  do us <- parse_lex_csv utxt ;;
+  do ur <- match usr with Some t => do r <- parse_lex_csv t ;; Ok (Some (lexrows_of r)) | None => Ok None end ;;
+  Ok {| tc_chardef := cd; tc_unk := unklines_of us; tc_sys := lexrows_of ls; tc_user := ur; tc_built := built;
+        tc_conn := m; tc_ignore_space := isp; tc_space_res := sres; tc_mgl := mgl; tc_sents := obs; tc_extra := [] |}.
 
 Definition c10_corr (c : c10case) : bool :=
   match c with
   | C10Struct t => tok_corr t
-  | C10Text _ _ _ _ => true
+  | C10Text _ _ ctxt utxt mtxt ltxt usr built conn isp sres mgl obs _ =>
+      match text_case ctxt utxt mtxt ltxt usr built isp sres mgl obs with
+      | Err => (built =? 1)%N
+      | Ok tc => tok_corr tc && (negb (built =? 0)%N || list_eqb (list_eqb Z.eqb) (tc_conn tc) conn)
+      | Panic => false
+      end
   | C10Bigram _ _ _ _ _ => true
   | C10Map _ nl nr l r out _ => (res_code (check_map (N.to_nat nl) (N.to_nat nr) l r) =? out)%N
   end.
@@ -22,7 +40,7 @@ Definition c10_oracle_all (c : c10case) : bool :=
   | C10Struct t =>
       negb (tc_built t =? 2)%N
       && forallb (fun so => negb (so_outcome so =? 2)%N) (tc_sents t)
-  | C10Text _ _ built sents => negb (built =? 2)%N && forallb (fun s => negb (fst s =? 2)%N) sents
+  | C10Text _ _ _ _ _ _ _ built _ _ _ _ _ sents => negb (built =? 2)%N && forallb (fun s => negb (fst s =? 2)%N) sents
   | C10Bigram _ _ _ built sents => negb (built =? 2)%N && forallb (fun s => negb (fst s =? 2)%N) sents
   | C10Map _ _ _ _ _ out sents => negb (out =? 2)%N && forallb (fun s => negb (fst s =? 2)%N) sents
   end.
@@ -32,7 +50,7 @@ Definition c10_known (c : c10case) : bool :=
      | C10Struct t =>
          negb (tc_built t =? 2)%N
          && with_dict t false (fun d o => forallb (fun so => negb (so_outcome so =? 2)%N || uncovered d so) (tc_sents t))
-     | C10Text _ _ built sents => negb (built =? 2)%N && forallb (fun s => negb (fst s =? 2)%N || snd s) sents
+     | C10Text _ _ _ _ _ _ _ built _ _ _ _ _ sents => negb (built =? 2)%N && forallb (fun s => negb (fst s =? 2)%N || snd s) sents
      | C10Bigram _ _ _ built sents => negb (built =? 2)%N && forallb (fun s => negb (fst s =? 2)%N || snd s) sents
      | C10Map _ _ _ _ _ out sents => negb (out =? 2)%N && forallb (fun s => negb (fst s =? 2)%N || snd s) sents
      end.
@@ -40,7 +58,7 @@ Definition c10_known (c : c10case) : bool :=
 Definition c10_nontrivial (c : c10case) : bool :=
   match c with
   | C10Struct t => negb (tc_built t =? 0)%N || existsb (fun so => Nat.leb 2 (length (so_tokens so))) (tc_sents t)
-  | C10Text _ _ built _ => (built =? 1)%N
+  | C10Text _ _ _ _ _ _ _ built _ _ _ _ _ _ => (built =? 1)%N
   | C10Bigram _ e _ built _ => (built =? 1)%N || (e =? 0)%N
   | C10Map _ _ _ _ _ out _ => (out =? 1)%N
   end.
